@@ -372,7 +372,7 @@ def run(tier='quick'):
             if (m.stmt.table or '').lower() in c01.TRACK_TABLES]
     tmaps = rowrules.expand_sites(prog, cg, eff, c18.table_functions(prog, 'track_table'))
     c01._codec_agreement(prog, chk, W3, maps + tmaps)
-    c08._cleanup(prog, cg, eff, chk, W4)
+    c08._cleanup(prog, cg, eff, chk, W4, all_fk_relations=True)
     # ---- W7 / W8 ---------------------------------------------------------------------------
     from .. import domains
     W7 = chk.rule('W7', 'identifier-domain typing: every trigger body, view and library statement of every '
